@@ -15,7 +15,7 @@ from props import asyncio_common as ac
 META = {
     "technique": "TLA+ property monitor + asyncio/scheduler mechanism model (AsyncIOSched.tla) checked by TLC over all interleavings with negative controls; scenario family exported by TLC and performed on the real schedulers under DetSched-controlled thread schedules on a virtual-time subclass of the real asyncio.BaseEventLoop; recorded traces validated in batch by TLC against the monitor (AsyncIOSchedTrace.tla) and matched against the mechanism (AsyncIOSchedMech.tla, drift only)",
     "level": "TLC checks OnLoopThread, NotEarly, NoStartAfterDisposeReturned, NoLostAction (plus AtMostOnce, NoMissedWakeup, no stuck state) on every interleaving of the loop thread and the foreign thread(s) of the mechanism model (ready FIFO, timer heap, cancelled flags, self-pipe wake-up, two-stage relative schedule, direct vs marshalled cancellation at source-line granularity) for every scenario of the bounded family (scheduler kind x immediate/relative x who schedules x who disposes - incl. while the loop is stopped after having run and is run again - x wait x disposer inside another running loop x loop kept busy), with the cancellation decision taken on the scheduler's own loop state; the decision of the originally pinned code and six single faults are each refuted by the invariant they were built to break (non-vacuity, same run). Every scenario TLC exports is built on the real AsyncIOScheduler / AsyncIOThreadSafeScheduler over the stdlib's own BaseEventLoop (Handle, TimerHandle, _run_once, timer heap) with a controlled clock and run under thread schedules up to the preemption bound (context-bounded, capped per scenario, seeded) plus seeded random schedules; each execution's totally ordered event trace (schedule call/return, dispose call/return with thread, action start with thread and loop clock, loop start/stop/idle) must be a behaviour of the monitor that satisfies every invariant in every state; a hang is a rejected trace. A sample of the traces is additionally explained step by step by the mechanism model (mismatch = model drift, no alarm).",
-    "note": "TLC 1.8; DetSched switch points = GIL-realisable points in the two scheduler modules and in Handle.cancel/_run, BaseEventLoop._run_once/call_soon(_threadsafe)/_call_soon/call_later/call_at; selector replaced by a cooperative stub (self-pipe flag, controlled clock), loop.time() = controlled clock, concurrent.futures.Future replaced in the scheduler module by a cooperative future; one disposing thread per item; the loop does not start or stop during a dispose() call; NoLostAction is this check's reading of 'actions ... run'",
+    "note": "TLC 1.8; DetSched switch points = GIL-realisable points in the two scheduler modules and in Handle.cancel/_run, BaseEventLoop._run_once/call_soon(_threadsafe)/_call_soon/call_later/call_at; selector replaced by a cooperative stub (self-pipe flag, controlled clock), loop.time() = controlled clock plus an epoch of the loop's own (0 / 4e6 / 1e7 s, alternating by scenario; traces stay on the controlled clock), concurrent.futures.Future replaced in the scheduler module by a cooperative future; one disposing thread per item; the loop does not start or stop during a dispose() call; NoLostAction is this check's reading of 'actions ... run'",
     "ref": "DESIGN.md 6 C33, 3.3",
 }
 
